@@ -83,7 +83,7 @@ int snoopy_datasource_login (char * const resultBuf, size_t resultBufSize, __att
             strcpy(login, "(unknown)");
         } else {
             strncpy(login, loginptr, loginSizeMaxWithoutNull);   // Coverity suggests using -1 size here
-            if ((int)strlen(loginptr) > loginSizeMaxWithoutNull) {
+            if ((int)strlen(loginptr) >= loginSizeMaxWithoutNull) {   // ">=" - strncpy() does not terminate when the source fills the whole size
                 login[loginSizeMaxWithoutNull] = '\0';
             }
         }
